@@ -146,7 +146,8 @@ def threads_set(tier):
     out = []
     callers = ("main", "w7", None)
     # a caller whose name is long and not ASCII (2- and 3-byte characters, 150 bytes): the composed thread name is the whole name
-    callers_long = callers + (LONG_CALLER,)
+    # ... and a caller whose name is present but EMPTY (the prefix is then the empty string: `_join_0`)
+    callers_long = callers + (LONG_CALLER, "")
     profs = list(fp.profiles(3, 3))
     if tier != "quick":
         profs += list(fp.profiles(4, 2, nmin=4)) + [(1, 2, 3, 4), (4, 4), (4, 1, 4), (2, 2, 2, 2, 2)]
